@@ -230,9 +230,12 @@ def run_lines(cmd, stdin_text, timeout=3600, unlimited_stack=False):
     if unlimited_stack:
         cmd = "ulimit -s unlimited 2>/dev/null; " + " ".join(cmd)
     e = dict(os.environ)
-    pr = subprocess.run(cmd, input=stdin_text, shell=isinstance(cmd, str), stdout=subprocess.PIPE,
-                        stderr=subprocess.PIPE, text=True, errors="replace", timeout=timeout, env=e)
-    return pr.returncode, pr.stdout.split("\n")[:-1] if pr.stdout.endswith("\n") else pr.stdout.split("\n"), pr.stderr
+    # bytes mode: text mode would apply universal newlines and split lines at a lone CR
+    pr = subprocess.run(cmd, input=stdin_text.encode(), shell=isinstance(cmd, str), stdout=subprocess.PIPE,
+                        stderr=subprocess.PIPE, timeout=timeout, env=e)
+    out = pr.stdout.decode("utf-8", "replace").replace("\r", "\\r")
+    err = pr.stderr.decode("utf-8", "replace")
+    return pr.returncode, out.split("\n")[:-1] if out.endswith("\n") else out.split("\n"), err
 
 
 def parallel_lines(cmd, cases, shards, timeout=3600, unlimited_stack=False):
